@@ -205,7 +205,7 @@ func run(c *fw.Ctx) {
 		}
 	}
 	// 2. generated
-	per := c.N(260, 2000)
+	per := c.N(260, 1800)
 	for _, sys := range []resolve.System{resolve.NPM, resolve.Maven, resolve.PyPI} {
 		for i := 0; i < per; i++ {
 			u := genUniverse(c.Rng, sys, i%5 == 4)
@@ -231,7 +231,7 @@ func run(c *fw.Ctx) {
 
 	// 3. gadget families: the same (package, requirement) pair reached from
 	// different roots; Maven exclusions on nested dependencies (gadget.go)
-	ng := c.N(70, 500)
+	ng := c.N(70, 400)
 	for _, sys := range []resolve.System{resolve.NPM, resolve.Maven, resolve.PyPI} {
 		for i := 0; i < ng; i++ {
 			u, roots := genGadget(c.Rng, sys)
